@@ -156,7 +156,7 @@ Proof.
   unfold is_fl. rewrite get_mtable. destruct (dlookup ds (tt t)); cbn; now rewrite andb_false_r.
 Qed.
 Lemma okt_okt2 t : okt t = true -> okt2 (mtable ds) t = true.
-Proof. intros H. unfold okt2. now rewrite H, is_fl_mtable. Qed.
+Proof. intros H. unfold okt2. now rewrite (okt_okt0 t H), is_fl_mtable. Qed.
 
 Lemma Hobj_m k m : get_macro (mtable ds) k = Some m ->
   m_name m = k /\ (m_fun m = false -> forallb (okt2 (mtable ds)) (m_repl m) = true).
